@@ -62,6 +62,32 @@ def lifecycle_schedule(r, kinds="GPZDWBEF"):
     return s
 
 
+def long_schedule(r, cycles, kinds="GPZDWBEF"):
+    """a long, mostly sequential history: many requests one after the other, each acknowledged and most of them answered;
+    now and then one is cancelled, times out, or overlaps with the next - what only shows after a counter has wrapped or a
+    table has filled up"""
+    def ev(name, kind="G"):
+        return (name, r.random(), kind, r.choice([3000, 5000]))
+    s = []
+    for _ in range(cycles):
+        k = r.choice(kinds)
+        s.append(ev("start", k))
+        x = r.random()
+        if x < 0.08:
+            s.append(ev("start", r.choice(kinds)))          # overlap with one more request
+        for _ in range(4):
+            s.append(ev("ack", k))
+        if x < 0.80:
+            s.append(ev("rsp", k)); s.append(ev("rsp", k))
+        elif x < 0.90:
+            s.append(ev("cancel", k))
+        else:
+            s.append(ev("tick", k)); s.append(ev("tick", k))
+        if r.random() < 0.15:
+            s.append(ev("ind", k))
+    return s
+
+
 class Trace:
     def __init__(self):
         self.tokens = []       # model event tokens
